@@ -70,7 +70,7 @@ func (e *Eval) state(l string) *semState {
 		st.Platform = e.Platform
 	}
 	for _, d := range sp.Deps {
-		r := e.U.Resolve(d)
+		r := e.U.resolveIn(sp.Pkg, d)
 		if r == "" {
 			continue
 		}
